@@ -644,8 +644,11 @@ class SegmentWriter(IndexWriter):
         from whoosh.index import FileIndex
 
         self._check_state()
+        # These are the segments of the generation this writer started from
+        # (self.generation is the one it is going to commit): a searcher on
+        # this reader must not pass for up to date once that commit is done
         return FileIndex._reader(self.storage, self.schema, self.segments,
-                                 self.generation, reuse=reuse)
+                                 self.generation - 1, reuse=reuse)
 
     def iter_postings(self):
         return self.pool.iter_postings()
